@@ -133,7 +133,23 @@ const asciiAlphabet = "abcdefghijklmnopqrstuvwxyzABCDEFGHIJKLMNOPQRSTUVWXYZ01234
 var utf8Samples = []string{"héllo", "✓", "日本語", "naïve ☃", "\u0000", "a\u0000b", "𝄞", "Ωmega"}
 
 // genStrBytes: string contents; empty, ASCII, multi-byte UTF-8, invalid UTF-8, long.
+// veryLongStrings: when set, one string in four is 4 KiB to 70 KiB long (the sizes at which a
+// reader may stop copying and start pointing into its buffers)
+var veryLongStrings = false
+
 func genStrBytes(rng *rand.Rand) []byte {
+	if veryLongStrings && rng.Intn(4) == 0 {
+		n := []int{4095, 4096, 4097, 5000, 8192, 20000, 65535, 65536, 70000}[rng.Intn(9)]
+		b := make([]byte, n)
+		x := byte('a' + rng.Intn(26))
+		for i := range b {
+			b[i] = x
+			if i%97 == 0 {
+				b[i] = asciiAlphabet[rng.Intn(len(asciiAlphabet))]
+			}
+		}
+		return b
+	}
 	switch rng.Intn(10) {
 	case 0, 1:
 		return []byte{}
